@@ -392,17 +392,19 @@ Proof. exact lib_check_trace. Qed.
 Print Assumptions C13_lib_check_trace.
 
 (** iterative_cluster: every test compares an earlier list position with a later one that carries the same normalised
-    attribute; no pair of positions is tested twice; hence at most n(n-1)/2 tests.  (Not proved: that the earlier position
-    is always the first member of its cluster -- compared on every case through the trace itself.) *)
+    attribute; the earlier position is the FIRST member of one of the returned clusters (an item is only ever compared with the
+    representative of a class -- the transitivity shortcut of the code, made visible); no pair of positions is tested twice;
+    hence at most n(n-1)/2 tests. *)
 Theorem C13_gc_trace :
   forall (iso : item -> item -> bool) (mode : attr_mode) (data : list item),
   let tr := snd (gc_iterative_tr iso mode data) in
   NoDup tr /\
   (forall i j, In (i, j) tr ->
      i < j < length data /\
-     exists xi xj, nth_error data i = Some xi /\ nth_error data j = Some xj /\ gc_key mode xi = gc_key mode xj) /\
+     (exists xi xj, nth_error data i = Some xi /\ nth_error data j = Some xj /\ gc_key mode xi = gc_key mode xj) /\
+     (exists cl, In (i :: cl) (fst (fst (gc_iterative_tr iso mode data))))) /\
   2 * length tr <= length data * (length data - 1).
-Proof. exact gc_trace. Qed.
+Proof. exact gc_trace_full. Qed.
 Print Assumptions C13_gc_trace.
 
 (** the constructor contract of both classes inside the model: accepted iff the (lower-cased) backend is available and
@@ -441,3 +443,22 @@ Theorem C13_raw_matchers :
   (forall (c : ccfg) (g : rgraph13), node_ids (project13 c g) = node_ids g).
 Proof. exact (conj node_match_raw13_project (conj project13_matchers project13_ids)). Qed.
 Print Assumptions C13_raw_matchers.
+
+(** graph_morphism.graph_isomorphism(g1, g2, node_match, edge_match, use_defaults) -- its option handling in the model
+    ([iso_call]: a matcher that is None is replaced by the function's own default (element / charge with "*" / 0; order with 1)
+    only when use_defaults is set, otherwise that side is not compared at all): with both matchers given the caller's
+    configuration decides and use_defaults is irrelevant; with none and use_defaults the function's defaults; with none and
+    no defaults the topology alone; with only the node matcher and use_defaults the caller's labels and the default bond
+    attribute.  [graph_iso2] with equal flags is [graph_iso]. *)
+Theorem C13_graph_isomorphism_options :
+  forall (c cdef : ccfg) (g1 g2 : rgraph13),
+  (forall ud, iso_call c cdef true true ud g1 g2 = graph_iso true (cc_defs c) (project13 c g1) (project13 c g2)) /\
+  iso_call c cdef false false true g1 g2 = graph_iso true (cc_defs cdef) (project13 cdef g1) (project13 cdef g2) /\
+  iso_call c cdef false false false g1 g2 =
+    graph_iso false [] (project13 {| cc_names := []; cc_defs := []; cc_edge := 0%N |} g1)
+                       (project13 {| cc_names := []; cc_defs := []; cc_edge := 0%N |} g2) /\
+  iso_call c cdef true false true g1 g2 =
+    graph_iso true (cc_defs c) (project13 {| cc_names := cc_names c; cc_defs := cc_defs c; cc_edge := cc_edge cdef |} g1)
+                               (project13 {| cc_names := cc_names c; cc_defs := cc_defs c; cc_edge := cc_edge cdef |} g2).
+Proof. exact iso_call_cases. Qed.
+Print Assumptions C13_graph_isomorphism_options.
